@@ -125,6 +125,25 @@ def gen_cases(rng):
         if let_size and n >= 2:
             add("index-vs-overridden-size", "fill_in_let", wrap(hdr, [("gate", "X", ("array_item", "q", n - 1))]),
                 wrap(hdr, [("gate", "X", ("array_item", "q", n - 1))]), ov={"N": n - 1}, twin_ov={"N": n + 1})
+    # alias chains whose source size depends on a let that an override shrinks below a used index
+    n = rng.randint(3, 5)
+    k = n - 1
+    small = rng.randint(1, k - 1)
+    for kind, maps, ref_good in (
+            ("whole-of-slice", [("map", "a", "q", 0, "k", 1), ("map", "b", "a")], ("array_item", "b", k - 1)),
+            ("whole-of-whole-of-slice", [("map", "a", "q", 0, "k", 1), ("map", "b", "a"), ("map", "c", "b")], ("array_item", "c", k - 1)),
+            ("slice-of-slice", [("map", "a", "q", 0, "k", 1), ("map", "b", "a", 0, "k", 1)], ("array_item", "b", k - 1)),
+            ("single-of-whole-of-slice", [("map", "a", "q", 0, "k", 1), ("map", "b", "a"), ("map", "one", "b", k - 1)], "one"),
+    ):
+        h = [("let", "k", k), ("let", "th", 0.5), ("register", "q", n)] + maps
+        st = [("gate", "X", ref_good)]
+        add("index-vs-overridden-alias-size:" + kind, "fill_in_let", wrap(h, st), wrap(h, st), ov={"k": small}, twin_ov={"k": k})
+    h = [("let", "N", n), ("let", "th", 0.5), ("register", "q", "N"), ("map", "b", "q")]
+    st = [("gate", "X", ("array_item", "b", n - 1))]
+    add("index-vs-overridden-register-size:whole-alias", "fill_in_let", wrap(h, st), wrap(h, st), ov={"N": n - 1}, twin_ov={"N": n})
+    h = [("let", "N", n), ("let", "th", 0.5), ("register", "q", "N"), ("map", "b", "q", 0, n, 1)]
+    add("slice-vs-overridden-register-size", "fill_in_let", wrap(h, [("gate", "X", ("array_item", "b", 0))]),
+        wrap(h, [("gate", "X", ("array_item", "b", 0))]), ov={"N": n - 1}, twin_ov={"N": n + 1})
     # index into aliases
     n, hdr = base(rng, n=rng.randint(3, 5))
     start = rng.randint(0, n - 2)
